@@ -22,14 +22,14 @@ ASSUMPTIONS = ["patterns are matched against absolute paths (as the help text of
 BUDGET = {"quick": {"shards": 8, "examples": 200}, "thorough": {"shards": 16, "examples": 2500}}
 
 PATTERN_KINDS = ["file", "dir", "dir/", "glob", "**/name", "**/dir/name", "absfile", "absdir", "absdir/", "input", "**/dir/",
-                 "allcmake"]
+                 "allcmake", "absglob-file", "absglob-dir", "absglob-input"]
 
 
 def strategy(tier):
     depth = 3 if tier == "quick" else 4
     pat = st.tuples(st.sampled_from(PATTERN_KINDS), st.integers(0, 30), st.sampled_from(["e", "s", "u"]))
     return st.fixed_dictionaries({
-        "tree": T.dir_tree(depth, max_files=5, max_dirs=3, mixed_case=False),
+        "tree": T.dir_tree(depth, max_files=5, max_dirs=3, mixed_case=True),
         "patterns": st.lists(pat, min_size=0, max_size=5),
         "recursive": st.sampled_from([True, True, True, False]),
         "order": st.one_of(st.none(), st.lists(st.integers(0, 11), min_size=1, max_size=8)),
@@ -72,6 +72,19 @@ def build_patterns(case, tree, inp):
             p = inp + "/" + dirs[i % len(dirs)]
         elif kind == "absdir/" and dirs:
             p = inp + "/" + dirs[i % len(dirs)] + "/"
+        elif kind == "absglob-file" and files:
+            # wildcard in the part of the absolute path that leads to the input directory
+            parts = inp.split("/")
+            parts[-2] = ["*", parts[-2][:4] + "*", "**"][i % 3]
+            p = "/".join(parts) + "/" + files[i % len(files)]
+        elif kind == "absglob-dir" and dirs:
+            parts = inp.split("/")
+            parts[-1] = ["i?", "*", "in*"][i % 3]
+            p = "/".join(parts) + "/" + dirs[i % len(dirs)] + "/"
+        elif kind == "absglob-input":
+            parts = inp.split("/")
+            parts[-1] = ["i*", "?n"][i % 2]
+            p = "/".join(parts) + ("/" if i % 3 else "")
         elif kind == "input":
             p = inp if i % 2 else inp + "/"
         elif kind == "allcmake":
